@@ -5,22 +5,22 @@ import json
 CLAIMED = {
  # id: (level, technique, text, note, design_ref)
  "C01": ("exploration", "deterministic simulation: seeded operation histories against R-STACK + twin per-symbol loop, iterator-error injection",
-         "Seeded search over operation histories (encode/decode, all batch/reverse/fallible-iterator forms, export+re-import through six backend kinds incl. tiny bounded cursors whose writes fail and Reverse<Cursor>, clone, temporary decoders of six kinds) on every (Word,State) of the menu with extreme TableModels and library models; oracles: LIFO equality with the most recent un-popped encode of the same model, exported words restored at every pop, batch forms equal the per-symbol loop, state invariant, re-import never refused. Sampling, not proof.",
+         "Seeded search over operation histories (encode/decode, all batch/reverse/fallible-iterator forms, export+re-import through six backend kinds incl. tiny bounded cursors whose writes fail and Reverse<Cursor>, clone, clear() as a restart, temporary decoders of six kinds, foreign decoders over the raw-binary payload) on every (Word,State) of the menu with extreme TableModels and library models; oracles: LIFO equality with the most recent un-popped encode of the same model, exported words restored at every pop, batch forms equal the per-symbol loop, state invariant, re-import never refused. Sampling, not proof.",
          "Trusted base: harness TableModel/FnModel adapters, the trace executor, R-STACK bookkeeping. Models are assumed well-formed (C03 is not decided here).", "DESIGN 3 C01"),
  "C02": ("exploration", "deterministic simulation: producer -> store -> consumer world in its fault-free configuration, workload steered into carry states by one-step look-ahead and adversarial table synthesis",
-         "Messages (length 0..2000) over every (Word,State) of the menu with per-symbol precision changes are encoded into six sink kinds, sealed, and decoded through eight source kinds, optionally taking the decoder apart (into_raw_parts) and reassembling it (from_raw_parts) between symbols; oracles: FIFO equality, empty message => no words, maybe_exhausted after the last symbol, batch forms equal the loop. The generator uses the public encoder state to steer lower/range into Inverted situations (num_inverted>=3), carry / no-carry resolutions, seal-while-inverted and range == threshold.",
+         "Messages (length 0..2000) over every (Word,State) of the menu with per-symbol precision changes are encoded into six sink kinds, sealed, and decoded through eight source kinds, optionally taking the decoder or the encoder apart (into_raw_parts) and reassembling it (from_raw_parts) between symbols, restarting the encoder with clear() (preferably while words are held back), sealing through into_compressed() or Vec::from(encoder), decoding through into_decoder() or RangeDecoder::from(encoder); oracles: FIFO equality, empty message => no words, maybe_exhausted after the last symbol, batch forms equal the loop. The generator uses the public encoder state to steer lower/range into Inverted situations (num_inverted>=3), carry / no-carry resolutions, seal-while-inverted and range == threshold.",
          "This is the fault-free configuration of the channel whose fault-injecting configurations are C09/C10/C11; TableModel trusted; sampling.", "DESIGN 3 C02"),
  "C10": ("exploration", "deterministic simulation with fault injection at the data seam: garbage, truncated, bit-flipped, extended and head-cut streams, wrong model sequences, read errors, fed to the consumers of all three stream coders",
-         "Decoders of the ANS coder (from_compressed / from_binary over Vec, slice cursor, fallible iterator), the range decoder (owned, borrowed, iterator source) and the chain coder (both constructors) are built over arbitrary or corrupted words and decode with arbitrary well-formed models, with emphasis on lookup tables and lazily quantised models; oracles: no panic, no abort (worker child process on the hardened build), every symbol inside the support of the model it was decoded with, ANS never errs, range only InvalidData, chain only OutOfCompressedData, backend errors only where a read fault was injected; decoding continues after an error; no decode may hang (quantized models over narrow signed/unsigned symbol types whose support touches the ends of the type are part of the zoo).",
+         "Decoders of the ANS coder (from_compressed / from_binary over Vec, slice cursor, fallible iterator), the range decoder (owned, borrowed, iterator source) and the chain coder (both constructors) are built over arbitrary or corrupted words (random, zeros, ones, corrupted valid streams, and words whose low or high PRECISION bits sit on or next to a boundary between two symbols of the model they will meet) and decode with arbitrary well-formed models, with emphasis on lookup tables and lazily quantised models; oracles: no panic, no abort (worker child process on the hardened build), every symbol inside the support of the model it was decoded with, ANS never errs, range only InvalidData, chain only OutOfCompressedData, backend errors only where a read fault was injected; decoding continues after an error; no decode may hang (quantized models over narrow signed/unsigned symbol types whose support touches the ends of the type are part of the zoo).",
          "A run that exceeds the wall-clock limit of its worker is localised, re-executed alone in a fresh process, and reported only if it exceeds the limit again (class C10/process-died, status timeout); wall-clock alone never decides a verdict. Supports come from the model specs.", "DESIGN 3 C10"),
  "C11": ("exploration", "deterministic simulation with fault injection: arbitrary words appended after / stored before the sealed message; interval-containment oracle from the unbounded-precision reference at every symbol boundary",
          "Store appends all-ones / all-zero / random words / the same message again after the sealed words, or the encoder starts on a pre-filled sink; the consumer must decode the original symbols; in addition, at every symbol boundary (each is a sealing point) the R-RANGE reference checks arithmetically that the all-ones and all-zeros continuations of the sealed words stay inside [low, low+range). Adversarial (cum,prob) synthesis drives the encoder into the measure-small region (range barely above its minimum, lower just above a word boundary).",
          "Trusted base: R-RANGE (big-integer low, ripple carry).", "DESIGN 3 C11"),
  "C04": ("exploration", "deterministic simulation: bits-back histories on arbitrary words against the R-RANS reference",
-         "Arbitrary word sequences (incl. zero / all-ones / trailing zero words, length 0) loaded as raw binary, decode k symbols with arbitrary models (any precision sequence), reloads in between, encode back in reverse; oracles: num_valid_bits exact, decode never errs, every decoded symbol and every intermediate state equals the textbook rANS reference, both raw-binary accessors return the original words and agree with each other.",
+         "Arbitrary word sequences (incl. zero / all-ones / trailing zero words, length 0) loaded as raw binary, decode k symbols with arbitrary models (any precision sequence), reloads in between, encode back in reverse; oracles: num_valid_bits exact, decode never errs, every decoded symbol and every intermediate state equals the textbook rANS reference, both raw-binary accessors return the original words and agree with each other; foreign decoders over the raw-binary payload (from_binary_slice, from_reversed_binary, from_reversed_binary_iter) decode what the coder itself decodes.",
          "Trusted base: R-RANS reference (validated against the real coder on the fault-free tree and against published vectors), TableModel.", "DESIGN 3 C04"),
  "C05": ("exploration", "deterministic simulation of representation (version) skew between producer, twin producer and consumer of one entropy model",
-         "Claimed in its observable form: per run one library-built model (uniform, categorical fast/perfect from f32/f64, fixed-point, leakily quantized Gaussian/Laplace/Cauchy/Binomial) is given to three parties in independently drawn representations (owner, view, lazy, to_generic_encoder_model, to_generic_decoder_model, to_generic_lookup_decoder_model, to_lookup_decoder_model, rebuilt from its own symbol_table, non-contiguous with identity relabelling); the two producers' coder states must be identical after every symbol and the consumer must recover the symbols, on ANS and range coders; sweep messages visit every symbol of the support. The pointwise table equality of the property's first sentence is only sampled through transmitted symbols.",
+         "Claimed in its observable form: per run one library-built model (uniform, categorical fast/perfect from f32/f64, fixed-point, leakily quantized Gaussian/Laplace/Cauchy/Binomial) is given to three parties in independently drawn representations (owner, view, lazy, to_generic_encoder_model, to_generic_decoder_model, to_generic_lookup_decoder_model, to_lookup_decoder_model, rebuilt from its own symbol_table, non-contiguous with identity relabelling, lookup and non-contiguous (lookup) models built directly with their own same-named constructors, lookup models converted back with as_/into_contiguous_categorical and into_non_contiguous_categorical); the two producers' coder states must be identical after every symbol and the consumer must recover the symbols, on ANS and range coders; sweep messages visit every symbol of the support. The pointwise table equality of the property's first sentence is only sampled through transmitted symbols.",
          "Weakest fit of this technique (no fault or schedule; configuration skew only) - stated in DESIGN 3/4. Representations that exist for a model must be constructible (a constructor abort is reported).", "DESIGN 3 C05"),
  "C06": ("exploration", "deterministic simulation with refinement check against independent reference models (R-RANS, R-RANGE) at every step and export point",
          "Along every generated history the coder's head and bulk equal the textbook streaming-rANS reference after every operation, and every export equals the reference serialisation; range-coder half: sealed words equal the unbounded-precision carry-propagating reference under the documented sealing rule; plus the byte-exact vectors printed in the project's documentation.",
@@ -32,25 +32,25 @@ CLAIMED = {
          "Inspections (get_compressed, get_binary, iter_compressed, temporary decoders, clone, size queries) inserted at seeded points; each view must equal clone().into_compressed() taken at that moment, must leave state()/bulk() untouched, and the whole run must produce the same decoded symbols and final words as the twin without inspections.",
          "Trusted base: executor; equality is on public observables only.", "DESIGN 3 C08"),
  "C09": ("fault_enumeration", "deterministic simulation with fault injection: out-of-support symbols (incl. aliasing values) and backend write failures at seeded points of encode histories",
-         "At EVERY encode position of every generated history (ANS, range and chain coders), on clones of the coder: a fixed catalogue of out-of-support symbols for the model about to be used (support min-1, max+1, i32::MIN/MAX, s +/- 2^8, s + 2^16, s + 2^32, s + 2^PRECISION, s + 2^ProbabilityBits) must return ImpossibleSymbol and leave the coder bit-identical; for the ANS coder additionally the very next backend write fails (Store) or the sink has no room (bounded cursor): the coder must be unchanged and the symbols encoded before must still decode. On top of that, seeded BadSym / write-fault / capacity operations inside the histories themselves, Huffman out-of-alphabet symbols (incl. top-bit-set values) on the bit coders, and continuation of the history after each fault.",
+         "At EVERY encode position of every generated history (ANS, range and chain coders), on clones of the coder: a fixed catalogue of out-of-support symbols for the model about to be used (support min-1, max+1, i32::MIN/MAX, s +/- 2^8, s + 2^16, s + 2^32, s + 2^PRECISION, s + 2^ProbabilityBits) must return ImpossibleSymbol and leave the coder bit-identical; for the ANS coder additionally the very next backend write fails (Store) or the sink has no room (bounded cursor and reversed bounded cursor; an encode that has to write a word must not report success): the coder must be unchanged and the symbols encoded before must still decode. On top of that, seeded BadSym / write-fault / capacity operations inside the histories themselves, Huffman out-of-alphabet symbols (incl. top-bit-set values) on the bit coders, and continuation of the history after each fault.",
          "Enumeration is over (history position) x (fault catalogue) for sampled histories; the histories themselves are sampled. Store is a simulator stub behind the public WriteWords/ReadWords traits.", "DESIGN 3 C09"),
  "C12": ("exploration", "deterministic simulation: invariant monitor on encode-only runs with a write-counting view of the backend",
-         "After every encode of an encode-only history from the empty coder: bits <= sum(info)+sum(eps)+(S+2W) with the analytically derived eps, words <= n + const, at most one backend write per encode_symbol. Long runs (up to 2000 symbols) so that a per-symbol leak overwhelms the constant.",
+         "After every encode of an encode-only history from the empty coder: bits <= sum(info)+sum(eps)+(S+2W) with the analytically derived eps, words <= n + const, at most one backend write per encode_symbol. Long runs (up to 2000 symbols; one run in 40 / 10 (quick / thorough) has 20 000-50 000 symbols, with the O(n) export evaluated at every 37th symbol and at the end) and a greedy worst-case workload so that a per-symbol leak overwhelms the constant; restart through clear() counts as a new empty coder.",
          "Float summation slack 1e-6*n+1e-6 bits; information content computed from the model's own fixed-point probabilities.", "DESIGN 3 C12"),
  "C13": ("exploration", "deterministic simulation with fault injection: decode / export / three re-import ways / re-encode histories with precision schedules on arbitrary data; truncated remainders; error-before-change via pre-call clones",
          "ChainCoder over every (Word,State) of the menu, from_binary and from_compressed, arbitrary data words, precision-change schedules (change_precision between symbols, undone in reverse), the three documented ways of re-importing remainders (suffix only, prefix++suffix, live coder); oracles: prefix ++ recovered parts equal the original words exactly, no leftover remainders, OutOfCompressedData / OutOfRemainders are reported before any state change (coder equals its pre-call clone), truncated remainders never yield wrong data, constructors refuse only when the reference says the data is too short.",
          "Trusted base: R-CHAIN head-initialisation rule; harness models.", "DESIGN 3 C13"),
  "C14": ("exploration", "deterministic simulation with fault injection: twin consumers over the same data with bit flips confined to one chunk (by R-CHAIN bit provenance) or one model replaced",
-         "Symbol i must be exactly what model i assigns to the i-th PRECISION-bit chunk as extracted by the independent bit-deque reference R-CHAIN; flipping bits inside chunk j or replacing model j may change only symbol j and never whether or when OutOfCompressedData occurs.",
+         "Symbol i must be exactly what model i assigns to the i-th PRECISION-bit chunk as extracted by the independent bit-deque reference R-CHAIN; flipping bits inside chunk j or replacing model j (in a fresh pass, or on the live coder: checkpoint pos(), decode, seek() back, decode with the replacement) may change only symbol j and never whether or when OutOfCompressedData occurs.",
          "Fixed PRECISION per run (the property speaks about PRECISION-bit chunks); R-CHAIN is an explicit bit-deque formulation of the consumption order.", "DESIGN 3 C14"),
  "C16": ("exploration", "deterministic simulation: seeded write/read/encode/decode/export/re-import/inspection histories on bit-level coders against the R-BITS reference (Vec<bool>)",
-         "StackCoder and QueueEncoder/QueueDecoder over five word types and three backends, with Huffman (integer and float weights) and Exp-Golomb (u8..u64, symbols incl. 0, 2^k-1, 2^k, MAX-1, MAX) codebooks, pre-filled queue sinks; oracles: len()/is_empty() exact at every step, pops return pushes in reverse, queue reads in order followed only by zero padding, decode_symbol equals the same codebook run over R-BITS, export + re-import preserves len and content at every fill level of the last word, maybe_exhausted after the last bit.",
+         "StackCoder and QueueEncoder/QueueDecoder over five word types and three backends, with Huffman (integer and float weights) and Exp-Golomb (u8..u64, symbols incl. 0, 2^k-1, 2^k, MAX-1, MAX) codebooks, pre-filled queue sinks; oracles: len()/is_empty() exact at every step, pops return pushes in reverse, queue reads in order followed only by zero padding, decode_symbol equals the same codebook run over R-BITS, export + re-import preserves len and content at every fill level of the last word, maybe_exhausted after the last bit; batch decodes through the decode_iid_symbols iterator (exact length, same items as single decodes).",
          "Codeword bits are obtained from the codebooks themselves (their correctness is C15, not decided here); R-BITS is a Vec<bool>.", "DESIGN 3 C16"),
  "C17": ("exploration", "deterministic simulation with fault injection (full sinks, out-of-range seeks, read/write errors) of the backend seam against the R-BACKEND reference",
-         "Histories over write, extend_from_iter, stack reads, queue reads, remaining, space_left/is_full, maybe_exhausted/maybe_full, pos/seek (back to recorded and to arbitrary incl. out-of-range positions), in-place reversal (both directions), views, mutable views, cloned on Vec, SmallVec, Cursor<Vec>, Cursor<Box<[_]>>, Reverse<Cursor<..>>, FallibleIteratorReadWords with error items and over non-fused iterators (which the adapter must fuse), callback writers with failing callbacks; every result is predicted by a Vec+position model; temporal clauses (no read succeeds after end-of-data; maybe_exhausted() == false promises that the next read is not end-of-data - maybe_full() promises nothing by its documentation and is not asserted).",
+         "Histories over write, extend_from_iter, stack reads, queue reads, remaining, space_left/is_full, maybe_exhausted/maybe_full, pos/seek (back to recorded and to arbitrary incl. out-of-range positions), in-place reversal (both directions), views, mutable views (as_mut_view and cursors over &mut [W] from new_at_pos_mut / new_at_write_end_mut), is_exhausted, cloned on Vec, SmallVec, Cursor<Vec>, Cursor<Box<[_]>>, Reverse<Cursor<..>>, FallibleIteratorReadWords with error items and over non-fused iterators (which the adapter must fuse), callback writers with failing callbacks; every result is predicted by a Vec+position model; temporal clauses (no read succeeds after end-of-data; maybe_exhausted() == false promises that the next read is not end-of-data - maybe_full() promises nothing by its documentation and is not asserted).",
          "Model positions are kept in the un-reversed orientation; reversal must be observationally a no-op for reads and writes.", "DESIGN 3 C17"),
  "C20": ("exploration", "deterministic simulation on a hardened build (std unsafe-precondition checks + overflow checks compiled into the library's generic code) in worker child processes, plus the same worker under Miri in the thorough tier; fault kinds: buffers shrunk through buf_mut(), poisoned float parameters, misbehaving user Distribution, out-of-range quantiles",
-         "Runs every explorer (ans, range, bits, backend, chain, skew, garbage) with its own workload bias plus the poison world (Cursor::buf_mut shrink/replace then stack reads / reversed writes / ANS coding over the cursor; NaN/inf/negative/denormal/huge float tables and normalisations into every float constructor followed by use of the model; a Distribution whose CDF is NaN / decreasing / constant / out of range at one call; quantile_function with quantile >= 2^P; valid-but-extreme float tables). Verdict rule: a UB-check abort, fatal signal or Miri UB report is always a violation; an overflow panic is a violation for in-contract operations; ordinary panics and Err values are the allowed failure form.",
+         "Runs every explorer (ans, range, bits, backend, chain, skew, garbage) with its own workload bias plus the poison world (Cursor::buf_mut shrink/replace then stack reads / reversed writes / ANS coding over the cursor; NaN/inf/negative/denormal/huge float tables and normalisations into every float constructor followed by use of the model; a Distribution whose CDF is NaN / decreasing / constant / out of range at one call; quantile_function with quantile >= 2^P; valid-but-extreme float tables; malformed fixed-point tables and mismatched symbol/probability counts; coders assembled with the safe from_raw_parts constructors from hostile parts - held-back counters up to usize::MAX, intervals astride the wrap point, arbitrary points and head states). Verdict rule: a UB-check abort, fatal signal or Miri UB report is always a violation; an overflow panic is a violation for in-contract operations; ordinary panics and Err values are the allowed failure form.",
          "Scope is the generated programs, as the property's quantifier says. Miri (thorough tier, 640 runs) cannot cross FFI and is slow; AddressSanitizer is not used (the UB-check build and Miri are strictly more informative for this crate, see DESIGN 7).", "DESIGN 3 C20"),
  "C18": ("exploration", "deterministic simulation: query-vs-export monitor at every step",
          "First sentence (coders), by simulation: num_words/num_bits/num_valid_bits/len/is_empty of ANS coder, range encoder and bit-level coders compared after every operation of a seeded history with what exporting at that moment returns; from_binary payload size exact; decoders that consumed exactly the message report maybe_exhausted, decoders with whole words left report false (ANS, range over exact backends, bit queue). Second sentence (model diagnostics): entropy, cross entropy and KL in both directions, floating-point table and floating_point_probability of sampled uniform / categorical / quantized models at six (Probability, PRECISION) combinations incl. full precision, against the textbook definitions on the exact fixed-point probabilities (relative tolerance 1e-9; infinities must agree exactly).",
